@@ -170,9 +170,12 @@ func run(c *core.Ctx, idx int) {
 		} else {
 			lon, lat = d.Pos(r)
 			if (d.Proj == "lcc" || d.Proj == "aea" || d.Proj == "eqdc") && r.Chance(0.06) {
-				// the cone-side latitudes reach the pole: co-latitudes from 3 deg down to 1e-4 deg
-				// (the pole itself has no defined longitude and is left out)
-				colat := math.Pow(10, r.Range(-4, 0.5))
+				// the cone-side latitudes reach the pole: co-latitudes from 3 deg down to 0.002 deg.
+				// (Closer than that the inverse of the equal-area and equidistant conics is
+				// ill-conditioned in latitude as well - the parallels crowd together, d(rho)/d(phi)
+				// goes to zero - and the original's Newton iteration, which stops at a step of 1e-7
+				// rad, leaves 1e-6 deg at 1e-4 deg from the pole; the pole itself has no longitude.)
+				colat := math.Pow(10, r.Range(-2.7, 0.5))
 				if d.LatMax > 0 {
 					lat = 90 - colat
 				} else {
